@@ -720,6 +720,100 @@ def mkfile(path: str, data: bytes, mode: int = 0o600) -> None:
 
 
 # --------------------------------------------------------------------------
+# strict DER (X.690 ch. 10) walker: the pkcs* formats are DER, not BER
+# --------------------------------------------------------------------------
+
+def der_items(data: bytes) -> List[Tuple[int, bytes, Optional[list]]]:
+    i = 0
+    out = []
+
+    while i < len(data):
+        tag = data[i]
+        i += 1
+
+        if tag & 0x1f == 0x1f or i >= len(data):
+            raise ValueError('unsupported tag / truncated')
+
+        ln = data[i]
+        i += 1
+
+        if ln == 0x80:
+            raise ValueError('indefinite length')
+
+        if ln & 0x80:
+            lb = data[i:i + (ln & 0x7f)]
+
+            if len(lb) != ln & 0x7f or lb[0] == 0:
+                raise ValueError('non-minimal length octets')
+
+            i += len(lb)
+            ln = int.from_bytes(lb, 'big')
+
+            if ln < 0x80:
+                raise ValueError('long form used for a short length')
+
+        content = data[i:i + ln]
+
+        if len(content) != ln:
+            raise ValueError('truncated content')
+
+        i += ln
+
+        if tag == 0x02:
+            if not content or len(content) > 1 and (
+                    content[0] == 0 and not content[1] & 0x80 or
+                    content[0] == 0xff and content[1] & 0x80):
+                raise ValueError('non-minimal INTEGER')
+
+        out.append((tag, content, der_items(content) if tag & 0x20
+                    else None))
+
+    return out
+
+
+def pem_body(data: bytes) -> bytes:
+    lines = data.split(b'\n')
+    body = [l for l in lines[1:] if l and not l.startswith(b'-----') and
+            b':' not in l]
+    return base64.b64decode(b''.join(body), validate=True)
+
+
+def check_strict_der(fmt: str, data: bytes, mat: Mat, private: bool,
+                     encrypted: bool, sig: str) -> None:
+    try:
+        if fmt.endswith('pem'):
+            if fmt == 'pkcs1-pem' and encrypted:
+                return
+
+            data = pem_body(data)
+
+        top = der_items(data)
+
+        if len(top) != 1 or top[0][0] != 0x30:
+            raise ValueError('not a single SEQUENCE')
+
+        if fmt.startswith('pkcs8') and not encrypted:
+            inner = top[0][2][2 if private else 1]
+
+            if private and inner[0] != 0x04 or not private and \
+                    (inner[0] != 0x03 or inner[1][:1] != b'\0'):
+                raise ValueError('unexpected key container')
+
+            if private:
+                sub = der_items(inner[1])
+            elif mat.kind in ('rsa', 'dsa'):
+                sub = der_items(inner[1][1:])
+            else:
+                sub = [None]
+
+            if len(sub) != 1:
+                raise ValueError('key container holds %d items' % len(sub))
+    except (ValueError, IndexError, TypeError) as exc:
+        raise Violation('not-der', '%s export is not strict DER: %s' %
+                        (fmt, exc), sig + ':der') from None
+
+
+# --------------------------------------------------------------------------
 # independent codec for the OpenSSH private key container (PROTOCOL.key)
 # --------------------------------------------------------------------------
 
@@ -916,6 +1010,8 @@ def run_private(case) -> CaseResult:
 
         if fmt == 'openssh':
             check_openssh_v1_written(data, mat, cbytes, sig)
+        else:
+            check_strict_der(fmt, data, mat, True, pp is not None, sig)
 
         # import through the requested path
         skip = case['skipval']
@@ -1158,6 +1254,9 @@ def run_public(case) -> CaseResult:
                             'succeeded', sig)
 
         carries = fmt in ('openssh', 'rfc4716')
+
+        if fmt.startswith('pkcs'):
+            check_strict_der(fmt, data, mat, False, False, sig)
 
         # what an independent reader sees
         try:
